@@ -52,3 +52,6 @@ add('C17', 'model_checking', 'explicit-state BFS to fixpoint over the product (r
 add('C05', 'exploration', 'exhaustive enumeration of scripts (seed pairs/triples x separator fillers), of opaque-region bodies (all bodies up to a length over a body alphabet) and of the plain-statement product automaton',
     'Every ordered pair (and triple of short ones) of the seed statements under every separator/final filler; every statement within one deviation of a seed as first/second statement; 8 region kinds x every body of <= 3-4 fragments lacking the terminator x 8 host positions with the expected pieces known by construction; plus all reachable states of the (reference x real splitter) product restricted to plain statements with ";" inside parentheses. Exhaustive within the bounds.',
     _E2, 'DESIGN.md 4/C05')
+add('C14', 'exploration', 'bounded exhaustive enumeration of region bodies over code-point class representatives x delimiter context pairs; every dictionary word x casings x contexts',
+    '8 region kinds x every body of <= 2-3 fragments over one representative per code-point class of the current rule set (plus multi-character fragments) x every (left, right) pair of 18 delimiter contexts; every single-word key of the nine keyword dictionaries x casings x contexts, expected type from an own first-table-wins lookup in the documented order. Exhaustive within the body bound; covers every Python str body of that length for the regex layer.',
+    'Trusted: CPython re; the class-partition argument (DESIGN 2.1); delimiter set per DESIGN 4.0 reading 5.', 'DESIGN.md 4/C14')
